@@ -2,6 +2,7 @@ import Lean.Data.Json
 import Ahbicht.Model.CFV
 import Ahbicht.Model.Parse
 import Ahbicht.Model.Ahb
+import Ahbicht.Model.Fc
 /-!
 # line-protocol driver: one JSON request per line on stdin, one JSON answer per line on stdout
 -/
@@ -22,6 +23,62 @@ partial def exprJson : Expr → Json
 partial def nexprJson : NExpr → Json
   | .leaf a => atomJson a
   | .node o as => Json.arr (#[Json.str o.ruleName] ++ (as.map nexprJson).toArray)
+
+partial def exprOfJson (j : Json) : Except String Expr := do
+  let a ← j.getArr?
+  let tag ← (a[0]? |>.getD Json.null).getStr?
+  let strAt (i : Nat) : Except String (List Char) := do
+    let s ← (a[i]? |>.getD Json.null).getStr?
+    pure s.toList
+  match tag with
+  | "cond" => pure (.leaf (.cond (← strAt 1)))
+  | "time" => pure (.leaf (.time (← strAt 1)))
+  | "pkg" =>
+    let rep := match a[2]? with
+      | some (Json.str r) => some r.toList
+      | _ => none
+    pure (.leaf (.pkg (← strAt 1) rep))
+  | _ =>
+    let op ← match tag with
+      | "or_composition" => pure Op.or_ | "xor_composition" => pure Op.xor_
+      | "and_composition" => pure Op.and_ | "then_also_composition" => pure Op.then_
+      | t => throw s!"bad tag {t}"
+    if a.size != 3 then throw "binary node expected"
+    pure (.bin op (← exprOfJson a[1]!) (← exprOfJson a[2]!))
+
+def optStr : Option String → Json | some s => Json.str s | none => Json.null
+def optBool : Option Bool → Json | some b => Json.bool b | none => Json.null
+
+def errName : EvalErr → String
+  | .invalidExpr => "InvalidExpressionError" | .notImplemented => "NotImplementedError"
+  | .valueError => "ValueError" | .keyError => "KeyError" | .other => "other"
+
+def lookupObj (j : Json) (field : String) (k : List Char) : Option Json :=
+  match j.getObjVal? field with
+  | .ok o => match o.getObjVal? (String.ofList k) with | .ok v => some v | .error _ => none
+  | .error _ => none
+
+def rcEnvOf (j : Json) : List Char → Option CFV := fun k =>
+  match lookupObj j "rc" k with
+  | some (Json.str s) => match s with | "F" => some .F | "U" => some .U | "K" => some .K | "N" => some .N | _ => none
+  | _ => none
+
+def hintEnvOf (j : Json) : List Char → Option String := fun k =>
+  match lookupObj j "hints" k with
+  | some (Json.str s) => some s
+  | _ => none
+
+def fcEnvOf (j : Json) : FcEnv := fun k =>
+  match lookupObj j "fc" k with
+  | some (Json.arr a) =>
+    match a[0]?, a[1]? with
+    | some (Json.bool b), some (Json.str m) => some ⟨b, some m⟩
+    | some (Json.bool b), _ => some ⟨b, none⟩
+    | _, _ => none
+  | _ => none
+
+def rcResultJson (r : RcResult) : Json :=
+  Json.mkObj [("fulfilled", optBool r.fulfilled), ("conditional", optBool r.conditional), ("fce", optStr r.fce), ("hints", optStr r.hints)]
 
 def partJson (p : Part) (cond : Json) : Json :=
   Json.arr #[Json.str (if p.cond.isSome then "part" else "bare"),
@@ -50,6 +107,16 @@ def handle (j : Json) : Except String Json := do
         partJson pe.1 (match pe.2 with | some e => nexprJson e.flat | none => Json.null)).toArray])])
     | .cond e => pure (Json.mkObj [("shape", Json.arr #["cond", nexprJson e.flat])])
     | .syntaxError => pure (Json.mkObj [("err", "SyntaxError")])
+  | "evalRc" =>
+    let t ← exprOfJson (← j.getObjVal? "tree")
+    match rcEvaluation (rcEnvOf j) (hintEnvOf j) t with
+    | .ok r => pure (rcResultJson r)
+    | .error e => pure (Json.mkObj [("err", errName e)])
+  | "evalFc" =>
+    let t ← exprOfJson (← j.getObjVal? "tree")
+    match evalFc (fcEnvOf j) t with
+    | .ok r => pure (Json.mkObj [("ok", r.ok), ("msg", optStr r.msg)])
+    | .error e => pure (Json.mkObj [("err", errName e)])
   | _ => throw s!"unknown op {op}"
 
 partial def loop (h : IO.FS.Stream) (out : IO.FS.Stream) : IO Unit := do
